@@ -41,6 +41,8 @@ class Proc:
         self.argv, self.env, self.cwd = argv, env, cwd
         self.p = None
         self.restarts = 0
+        self.marker = None
+        self.noise = 0
 
     def start(self):
         e = dict(os.environ)
@@ -58,6 +60,11 @@ class Proc:
             self.p.stdin.write(line + "\n")
             self.p.stdin.flush()
             r = self.p.stdout.readline()
+            while r and self.marker and not r.startswith(self.marker):
+                self.noise += 1          # the library prints warnings on stdout
+                r = self.p.stdout.readline()
+            if r and self.marker:
+                r = r[len(self.marker):]
         except (BrokenPipeError, OSError):
             r = ""
         if not r:
@@ -87,6 +94,7 @@ class Harness(Proc):
         super().__init__([exe], env={"VH_TIMEOUT_MS": str(timeout_ms), "VH_TMP": os.path.join(OUT, "tmp")})
         self.feature = feature
         self.nreq = 0
+        self.marker = "@@"
 
     def req(self, line):
         self.nreq += 1
